@@ -213,12 +213,10 @@ Proof.
   induction sm as [|[s m] sm IH]; intros us Hall Hf; [discriminate|].
   inversion Hall as [|? ? [Hne Hm] Hrest]; subst. cbn in Hf. cbn in Hm, Hne.
   destruct (usable T s mvals); [|apply IH; assumption].
-  destruct (m !! K T s mvals) as [us'|] eqn:Hk.
-  - inversion Hf; subst. split.
-    + intros u Hu. assert (Hu' : u ∈ i_get m (K T s mvals)) by (unfold i_get; rewrite Hk; exact Hu).
-      apply Hm in Hu' as (r & Hr & _). apply elem_of_dom. eauto.
-    + intros ->. apply (Hne (K T s mvals)). exact Hk.
-  - apply IH; assumption.
+  rename Hf into Hk. split.
+  - intros u Hu. assert (Hu' : u ∈ i_get m (K T s mvals)) by (unfold i_get; rewrite Hk; exact Hu).
+    apply Hm in Hu' as (r & Hr & _). apply elem_of_dom. eauto.
+  - intros ->. apply (Hne (K T s mvals)). exact Hk.
 Qed.
 
 Lemma Inv_zip : Forall (fun p => Inv1 T (rc_rows c) p.1 p.2) (zip specs (rc_idx c)).
@@ -248,10 +246,8 @@ Proof.
   induction sm as [|[s m] sm IH]; intros us u Hall Hf Hu; [discriminate|].
   inversion Hall as [|? ? [Hne Hm] Hrest]; subst. cbn in Hf. cbn in Hm, Hne.
   destruct (usable T s mvals) eqn:Hus.
-  - destruct (m !! K T s mvals) as [us'|] eqn:Hk.
-    + inversion Hf; subst us'. assert (Hu' : u ∈ i_get m (K T s mvals)) by (unfold i_get; rewrite Hk; exact Hu).
-      apply Hm in Hu' as (r & Hr & HK). exists s, m, r. split; [left|]. split; [exact Hus|]. split; [exact Hr|exact HK].
-    + destruct (IH us u Hrest Hf Hu) as (s' & mi & r & Hin & H1 & H2 & H3). exists s', mi, r. split; [right; exact Hin|auto].
+  - rename Hf into Hk. assert (Hu' : u ∈ i_get m (K T s mvals)) by (unfold i_get; rewrite Hk; exact Hu).
+    apply Hm in Hu' as (r & Hr & HK). exists s, m, r. split; [left|]. split; [exact Hus|]. split; [exact Hr|exact HK].
   - destruct (IH us u Hrest Hf Hu) as (s' & mi & r & Hin & H1 & H2 & H3). exists s', mi, r. split; [right; exact Hin|auto].
 Qed.
 
@@ -287,8 +283,9 @@ Variable T : table.
 Variable specs : list ispec.
 Variable c : rc.
 Hypothesis HI : Inv T specs c.
-(** every schema index of the table is one of the cache's (schema) index specifications *)
-Hypothesis Hschema : Forall (fun idx => exists i s, specs !! i = Some s /\ i_cols s = map (fun col => (col, None)) idx) (t_indexes T).
+(** the schema indexes of the table are the first index specifications of the cache, in the schema's order *)
+Hypothesis Hschema : forall j idx, t_indexes T !! j = Some idx ->
+  exists s, specs !! j = Some s /\ i_cols s = map (fun col => (col, None)) idx.
 Hypothesis Hnouuid : find_col T ucol = None.
 
 Lemma foldl_rbm_mono ms : forall acc, acc ⊆ foldl (rbm_step T specs c) acc ms.
@@ -309,20 +306,30 @@ Qed.
 
 Lemma first_index_hit_some mvals s m : forall sm i,
   Forall (fun p => Inv1 T (rc_rows c) p.1 p.2) sm ->
-  sm !! i = Some (s, m) -> usable T s mvals = true -> is_Some (m !! K T s mvals) ->
+  sm !! i = Some (s, m) -> usable T s mvals = true ->
+  (forall j p, j < i -> sm !! j = Some p -> usable T p.1 mvals = false) ->
+  is_Some (m !! K T s mvals) ->
   exists us, first_usable_hit T mvals sm = Some us /\ us <> ∅.
 Proof.
-  induction sm as [|[s0 m0] sm IH]; intros i Hall Hi Hus Hk; [destruct i; discriminate|].
+  induction sm as [|[s0 m0] sm IH]; intros i Hall Hi Hus Hbefore Hk; [destruct i; discriminate|].
   inversion Hall as [|? ? [Hne _] Hrest]; subst. cbn. cbn in Hne.
-  destruct (usable T s0 mvals) eqn:Hu0.
-  - destruct (m0 !! K T s0 mvals) as [us0|] eqn:H0.
-    + exists us0. split; [reflexivity|]. intros ->. apply (Hne (K T s0 mvals)). exact H0.
-    + destruct i as [|i]; cbn in Hi.
-      * inversion Hi; subst. rewrite H0 in Hk. destruct Hk; discriminate.
-      * eapply IH; eauto.
-  - destruct i as [|i]; cbn in Hi.
-    + inversion Hi; subst. rewrite Hus in Hu0. discriminate.
-    + eapply IH; eauto.
+  destruct i as [|i]; cbn in Hi.
+  - inversion Hi; subst. rewrite Hus. destruct Hk as [us0 H0]. exists us0. split; [exact H0|].
+    intros ->. apply (Hne (K T s mvals)). exact H0.
+  - assert (H0 : usable T s0 mvals = false) by (apply (Hbefore 0 (s0, m0)); [lia|reflexivity]).
+    rewrite H0. eapply IH; eauto. intros j p Hj Hp. apply (Hbefore (S j) p); [lia|exact Hp].
+Qed.
+
+(** List.find returns the first element that passes *)
+Lemma find_first {A} (f : A -> bool) : forall l x,
+  List.find f l = Some x ->
+  exists j, l !! j = Some x /\ f x = true /\ forall k y, k < j -> l !! k = Some y -> f y = false.
+Proof.
+  induction l as [|a l IH]; intros x Hf; [discriminate|]. cbn in Hf.
+  destruct (f a) eqn:Ha.
+  - inversion Hf; subst. exists 0. split; [reflexivity|]. split; [exact Ha|]. intros k y Hk. lia.
+  - destruct (IH x Hf) as (j & Hj & Hx & Hb). exists (S j). split; [exact Hj|]. split; [exact Hx|].
+    intros k y Hk Hy. destruct k as [|k]; cbn in Hy; [inversion Hy; subst; exact Ha|]. apply (Hb k y); [lia|exact Hy].
 Qed.
 
 Lemma mapM_eq_conds_lookup (m : row) : forall idx cs,
@@ -350,8 +357,8 @@ Proof.
     rewrite bool_decide_eq_true_2 in He by eauto. set_solver.
   - (* by index *)
     destruct (List.find (forallb (col_nondefault T mv)) (t_indexes T)) as [idx|] eqn:Hf; [|discriminate].
-    cbn in Hc. apply find_some in Hf as [Hidx Hnd].
-    rewrite Forall_forall in Hschema. destruct (Hschema idx) as (i & s & Hs & Hcols); [apply elem_of_list_In; exact Hidx|].
+    cbn in Hc. apply find_first in Hf as (i & Hidx & Hnd & Hfirst).
+    destruct (Hschema i idx Hidx) as (s & Hs & Hcols).
     pose proof (Inv_zip T specs c HI) as Hz.
     assert (Hlen : length specs = length (rc_idx c)) by (eapply Forall2_length; exact HI).
     destruct (lookup_lt_is_Some_2 (rc_idx c) i) as [mi Hmi]; [rewrite <- Hlen; eapply lookup_lt_Some; exact Hs|].
@@ -372,7 +379,17 @@ Proof.
     assert (Husable : usable T s mv = true).
     { unfold usable. rewrite Hcols. apply forallb_forall. intros ck Hck. apply in_map_iff in Hck as (col & <- & Hcol).
       unfold ck_usable. cbn [fst snd]. rewrite forallb_forall in Hnd. apply Hnd. exact Hcol. }
-    destruct (first_index_hit_some mv s mi _ i Hz Hzi Husable Hk) as (us & Hus & Hne).
+    assert (Hbefore : forall j p, j < i -> zip specs (rc_idx c) !! j = Some p -> usable T p.1 mv = false).
+    { intros j [sj mj] Hj Hp. apply lookup_zip_with_Some in Hp as (sj' & mj' & Heq & Hsj & _). inversion Heq; subst sj' mj'.
+      destruct (lookup_lt_is_Some_2 (t_indexes T) j) as [idxj Hidxj]; [apply lookup_lt_Some in Hidx; lia|].
+      destruct (Hschema j idxj Hidxj) as (sj' & Hsj' & Hcolsj). rewrite Hsj in Hsj'. inversion Hsj'; subst sj'.
+      cbn [fst]. unfold usable. rewrite Hcolsj. pose proof (Hfirst j idxj Hj Hidxj) as Hno.
+      apply not_true_is_false. intros Hall.
+      assert (Ht : forallb (col_nondefault T mv) idxj = true).
+      { apply forallb_forall. intros col Hcol. rewrite forallb_forall in Hall. specialize (Hall (col, None)).
+        apply Hall. apply in_map_iff. exists col. split; [reflexivity|exact Hcol]. }
+      rewrite Ht in Hno. discriminate. }
+    destruct (first_index_hit_some mv s mi _ i Hz Hzi Husable Hbefore Hk) as (us & Hus & Hne).
     rewrite Hus in He. cbn in He. apply Hne. set_solver.
 Qed.
 
@@ -401,7 +418,8 @@ Hypothesis HT : find_table S (t_name T) = Some T.
 Variable specs : list ispec.
 Variable c : rc.
 Hypothesis HI : Inv T specs c.
-Hypothesis Hschema : Forall (fun idx => exists i s, specs !! i = Some s /\ i_cols s = map (fun col => (col, None)) idx) (t_indexes T).
+Hypothesis Hschema : forall j idx, t_indexes T !! j = Some idx ->
+  exists s, specs !! j = Some s /\ i_cols s = map (fun col => (col, None)) idx.
 Hypothesis Hnouuid : find_col T ucol = None.
 Variable d : dbstate.
 Hypothesis Hsync : get_tbl d (t_name T) = rc_rows c.    (* the cache is synchronised with the database *)
@@ -508,7 +526,7 @@ Qed.
 
 Example premises_hold :
   find_table exS (t_name exT) = Some exT /\ Inv exT exSpecs exC /\
-  Forall (fun idx => exists i s, exSpecs !! i = Some s /\ i_cols s = map (fun col => (col, None)) idx) (t_indexes exT) /\
+  (forall j idx, t_indexes exT !! j = Some idx -> exists s, exSpecs !! j = Some s /\ i_cols s = map (fun col => (col, None)) idx) /\
   find_col exT ucol = None /\ get_tbl exD (t_name exT) = rc_rows exC /\
   (* Where(model with the name of row 7): found through the schema index *)
   bool_decide (matches exT exSpecs exC (CModels [(None, exRow 5 0)]) = {[7%N]}) = true /\
@@ -518,7 +536,7 @@ Example premises_hold :
   generate exT exSpecs exC (CModels [(None, exRow 9 0)]) = Some [[(11%N, CEq, VAtom (AStr 9))]].
 Proof.
   split; [reflexivity|]. split; [exact exC_inv|]. split.
-  { repeat constructor. exists 0%nat, (mkISpec [(11%N, None)] true). split; reflexivity. }
+  { intros [|j] idx Hj; cbn in Hj; [|destruct j; discriminate]. inversion Hj; subst. exists (mkISpec [(11%N, None)] true). split; reflexivity. }
   split; [reflexivity|]. split; [reflexivity|]. split; [vm_compute; reflexivity|]. split; vm_compute; reflexivity.
 Qed.
 End Example.
